@@ -97,9 +97,19 @@ fn ce_arc<RH: BuildHasher, REH: BuildHasher, FH: BuildHasher, FEH: BuildHasher>(
     ce(r)
 }
 fn msg_w<KH: lfu::KeyHasher<u64>, FH: BuildHasher, RH: BuildHasher, WH: BuildHasher, E: std::fmt::Debug>(
-    r: Result<WTinyLFUCache<u64, u64, KH, FH, RH, WH>, E>,
+    mut r: Result<WTinyLFUCache<u64, u64, KH, FH, RH, WH>, E>,
     constrained: bool,
 ) -> String {
+    if let Ok(c) = &mut r {
+        // a successfully constructed cache must be usable: a few dozen keys, each looked up twice
+        for k in 0..48u64 {
+            c.put(k.wrapping_mul(0x9E37_79B9_7F4A_7C15), k);
+        }
+        for k in 0..48u64 {
+            let _ = c.get(&k.wrapping_mul(0x9E37_79B9_7F4A_7C15));
+            let _ = c.get(&k.wrapping_mul(0x9E37_79B9_7F4A_7C15));
+        }
+    }
     if let (Ok(c), true) = (&r, constrained) {
         let (w, m, t) = c.verif_parts();
         let (pb, pt) = m.verif_parts();
@@ -204,6 +214,13 @@ fn run_one(c: &Value) -> String {
                     t.increment(&1);
                     t.increment(&1);
                     let _ = t.estimate(&1) + t.estimate(&2);
+                    // raw hashes spread over the whole 64-bit range (every row position class of a wide sketch)
+                    for i in 0..64u64 {
+                        let h = i.wrapping_mul(0x9E37_79B9_7F4A_7C15) ^ (i << 17) ^ (u64::MAX >> (i % 64));
+                        t.increment_hashed_key(h);
+                        t.increment_hashed_key(h);
+                        let _ = t.estimate_hashed_key(h);
+                    }
                     shape(vec![t.verif_w().1]);
                     "Ok".into()
                 }
